@@ -100,10 +100,14 @@ static std::string cmp_runs(const RunOut& a, const RunOut& b, bool counts) {
 
 static uint64_t g_cur_run = 0;
 static int g_fault_cap = 600;
+static int g_max_phase = 9;   // replay/minimisation: stop after this phase (1 baseline, 2 twin, 3 all-nothrow-fail, 4+ fault enumeration)
 
 // ------------------------------------------------------------------ C10 engine
 // returns true if a violation was found (filled in v)
+static volatile sig_atomic_t g_stop = 0;
+static bool g_aborted = false;
 static bool c10_fault_run(const Plan& pl, const RunOut& base, int op, int64_t k, int kind, Stats& st, Violation& v, const char* opkind) {
+  if (g_stop) { g_aborted = true; return false; }          // time box used up: abandon the case (it is not counted)
   RunCtl ctl; ctl.env = pl.env; ctl.fault.op = op; ctl.fault.alloc = k; ctl.fault.kind = kind;
   sim_status_run(g_cur_run, 4 + (uint64_t)kind, (uint64_t)op, (uint64_t)k);
   RunOut f; exec_seq(pl, ctl, f);
@@ -143,6 +147,8 @@ static bool case_c10(const Plan& pl, Stats& st, Violation& v, bool enumerate) {
   }
   sim_status_run(g_cur_run, 1, 0, 0);
   RunOut a; exec_seq(pl, ctl, a); ++st.evals; st.steps += a.steps;
+  if (pl.variant == 2 && !enumerate) { sim_status_run(g_cur_run, 2, 0, 0); RunCtl cv = ctl; cv.env = env_twin(pl.env); RunOut x; exec_seq(pl, cv, x); ++st.evals; }
+  if (pl.variant == 3 && !enumerate) { sim_status_run(g_cur_run, 3, 0, 0); RunCtl cv = ctl; cv.nothrow_fail_all = true; RunOut x; exec_seq(pl, cv, x); ++st.evals; }
   bool bad = false; std::string why;
   for_each_res(a, [&](const OpResult& o) {
     if (o.outcome == 3 && !bad) { bad = true; why = "op " + std::to_string(o.op) + " threw an unexpected exception: " + o.detail; }
@@ -154,6 +160,7 @@ static bool case_c10(const Plan& pl, Stats& st, Violation& v, bool enumerate) {
     RunOut a2; exec_seq(pl, ctl, a2); ++st.evals;
     if (a2.leaked != 0) return fail("leak", std::to_string(a2.leaked) + " block(s) allocated by the operations are still live after every object was destroyed", pl);
   }
+  if (g_max_phase < 2) return false;
   // twin: different addresses and garbage pattern; everything observable must be identical
   sim_status_run(g_cur_run, 2, 0, 0);
   RunCtl c2 = ctl; c2.env = env_twin(pl.env);
@@ -161,13 +168,14 @@ static bool case_c10(const Plan& pl, Stats& st, Violation& v, bool enumerate) {
   std::string d = cmp_runs(a, b, true);
   if (!d.empty()) { Plan p2 = pl; p2.note = "twin env " + std::to_string(c2.env); return fail("nondeterministic", "two executions that differ only in heap addresses and in the garbage that fresh memory contains disagree: " + d, p2); }
   // all nothrow requests fail (std::stable_sort falls back to its in-place path): same results
-  if (a.nt_allocs > 0) {
+  if (a.nt_allocs > 0 && g_max_phase >= 3) {
     sim_status_run(g_cur_run, 3, 0, 0);
     RunCtl c3 = ctl; c3.nothrow_fail_all = true;
     RunOut c; exec_seq(pl, c3, c); ++st.evals; st.steps += c.steps;
     std::string d3 = cmp_runs(a, c, false);
     if (!d3.empty()) return fail("nothrow-fallback-differs", "with every nothrow allocation failing the results differ: " + d3, pl);
   }
+  if (g_max_phase < 4) return false;
   // enumerate faults: every throwing allocation of every op (or a stratified sample above the cap)
   std::vector<const OpResult*> rs; for_each_res(a, [&](const OpResult& o) { rs.push_back(&o); });
   int64_t total = 0; for (const OpResult* o : rs) total += o->allocs;
@@ -226,6 +234,7 @@ struct ChooserCtx {
   TaskCtx** ctxs = nullptr;
   uint64_t logdig = 1469598103934665603ull;
 };
+static FILE* g_sched_log = nullptr;
 static void chooser(void* vctx, uint64_t alive, int last, uint32_t last_guard, int* task, uint64_t* q) {
   ChooserCtx* c = (ChooserCtx*)vctx;
   if (c->monitor_static) {
@@ -235,14 +244,15 @@ static void chooser(void* vctx, uint64_t alive, int last, uint32_t last_guard, i
   }
   auto lowest = [&]() { int t = 0; while (!(alive >> t & 1)) ++t; return t; };
   if (c->explicit_sched) {
-    if (c->pos < c->pl->sched.size()) { const Seg& s = c->pl->sched[c->pos++]; *task = (s.task >= 0 && s.task < c->ntasks && (alive >> s.task & 1)) ? s.task : lowest(); *q = s.quantum; }
+    if (c->pos < c->pl->sched.size()) { const Seg& s = c->pl->sched[c->pos++]; *task = (s.task >= 0 && s.task < c->ntasks && (alive >> s.task & 1)) ? s.task : lowest(); *q = s.quantum;
+      if (s.watch && c->ctxs && c->ctxs[*task]) c->ctxs[*task]->watch_guard = s.watch; }
     else { *task = lowest(); *q = ~0ull; }
     return;
   }
   int n = __builtin_popcountll(alive);
   int pick = (int)c->rng.below((uint64_t)n), t = 0;
   for (;; ++t) if (alive >> t & 1) { if (pick-- == 0) break; }
-  uint64_t quantum;
+  uint64_t quantum; uint32_t watch = 0;
   unsigned m = (unsigned)c->rng.below(100);
   if (m < 40) quantum = 1 + c->rng.below(20);
   else if (m < 65) quantum = 20 + c->rng.below(2000);
@@ -253,11 +263,12 @@ static void chooser(void* vctx, uint64_t alive, int last, uint32_t last_guard, i
     quantum = 300000;
     if (last >= 0 && n > 1 && last_guard) {
       if (t == last) { for (t = 0;; ++t) if ((alive >> t & 1) && t != last) break; }
-      if (c->ctxs && c->ctxs[t]) { c->ctxs[t]->watch_guard = last_guard; ++c->colocated; }
+      if (c->ctxs && c->ctxs[t]) { c->ctxs[t]->watch_guard = last_guard; ++c->colocated; watch = last_guard; }
     }
   }
   *task = t; *q = quantum;
-  c->taken.push_back(Seg{t, quantum});
+  c->taken.push_back(Seg{t, quantum, watch});
+  if (g_sched_log) { fprintf(g_sched_log, "seg t=%d q=%" PRIu64 " w=%u\n", t, quantum, watch); fflush(g_sched_log); }
 }
 
 struct TaskArg { const Plan* pl; WorkShared* ws; std::vector<TaskOut>* outs; };
@@ -292,7 +303,7 @@ static bool case_c14(const Plan& pl0, Stats& st, Violation& v) {
     if (cc.monitor_static) rt_static_snapshot();
     TaskArg ta{&pl, ws, &outs}; PrepCtx pc{&pl, ft};
     std::vector<SchedSeg> log(4096); size_t nlog = 0; SchedResult sr;
-    rt_run_tasks(pl.ntasks, task_fn, &ta, chooser, &cc, 400000000ull, log.data(), log.size(), &nlog, &sr, ctxs.data(), prep_fn, &pc);
+    rt_run_tasks(pl.ntasks, task_fn, &ta, chooser, &cc, 100000000ull, log.data(), log.size(), &nlog, &sr, ctxs.data(), prep_fn, &pc);
     if (cc.monitor_static) { int64_t off = rt_static_diff(); ++cc.static_checks; if (off >= 0) { if (cc.static_diff_off < 0) cc.static_diff_off = off; ++cc.rebaselined; rt_static_snapshot(); } }
     work_shared_destroy(ws);
     rt_env_release();
@@ -332,7 +343,6 @@ static bool run_case(const Plan& pl, Stats& st, Violation& v, bool enumerate) {
   return case_c14(pl, st, v);
 }
 
-static volatile sig_atomic_t g_stop = 0;
 static void on_term(int) { g_stop = 1; }
 static void on_terminate() {
   fprintf(stderr, "\nSIMDIE code=82 kind=terminate std::terminate called (exception escaped a noexcept function or destructor, or was not caught)\n");
@@ -355,6 +365,8 @@ int main(int argc, char** argv) {
   rt_init(status);
   g_static_monitor = getenv("SIM_STATIC_MONITOR") != nullptr;
   if (getenv("SIM_FAULT_CAP")) g_fault_cap = atoi(getenv("SIM_FAULT_CAP"));
+  if (getenv("SIM_MAX_PHASE")) g_max_phase = atoi(getenv("SIM_MAX_PHASE"));
+  if (getenv("SIM_SCHED_LOG")) g_sched_log = fopen(getenv("SIM_SCHED_LOG"), "w");
   if (cmd == "gen" && argc >= 6) {
     Plan p = gen_plan(argv[2], strtoull(argv[3], nullptr, 10), strtoull(argv[4], nullptr, 10), argv[5]);
     fputs(plan_to_text(p).c_str(), stdout);
@@ -387,7 +399,7 @@ int main(int argc, char** argv) {
     uint64_t start = strtoull(argv[5], nullptr, 10), stride = strtoull(argv[6], nullptr, 10), maxruns = strtoull(argv[7], nullptr, 10);
     std::string outdir = argv[8], wid = argv[9];
     signal(SIGTERM, on_term); signal(SIGINT, on_term);
-    Stats st; uint64_t done = 0; int nviol = 0;
+    Stats st; uint64_t done = 0; int nviol = 0; std::set<std::string> seen_sigs;
     std::string samples;
     for (uint64_t r = start; done < maxruns && !g_stop; r += stride, ++done) {
       Plan p = gen_plan(prop, seed, r, cfg);
@@ -396,18 +408,19 @@ int main(int argc, char** argv) {
       printf("START %" PRIu64 "\n", r); fflush(stdout);
       Stats one; Violation v;
       bool bad = run_case(p, one, v, true);
+      if (g_aborted) break;
       st.evals += one.evals; st.steps += one.steps; st.fault_runs += one.fault_runs; st.nothrow_fault_runs += one.nothrow_fault_runs; st.fault_fired_in_lib += one.fault_fired_in_lib;
       st.leaked_after_fault += one.leaked_after_fault; st.twin_runs += one.twin_runs; st.compared += one.compared; st.nontrivial += one.nontrivial; st.cex += one.cex; st.switches += one.switches;
       st.lib_preempt += one.lib_preempt; st.runs_two_preempted += one.runs_two_preempted; st.static_checks += one.static_checks; st.static_rebaselined += one.static_rebaselined; st.yields_cb += one.yields_cb; st.colocated += one.colocated;
       for (uint64_t k : one.keys) st.keys.insert(k);
-      if (bad) {
+      if (bad && seen_sigs.insert(v.cls + "|" + v.sig).second) {
         ++nviol;
         std::string pf = outdir + "/viol-" + wid + "-" + std::to_string(r) + ".plan";
         v.plan.expect = v.cls; write_file(pf, plan_to_text(v.plan)); write_file(pf + ".detail", v.detail + "\n");
         printf("VIOL %" PRIu64 " class=%s file=%s sig=%s\n", r, v.cls.c_str(), pf.c_str(), v.sig.c_str());
       }
       printf("END %" PRIu64 " evals=%" PRIu64 " steps=%" PRIu64 " faults=%" PRIu64 " keys=%zu\n", r, one.evals, one.steps, one.fault_runs, one.keys.size()); fflush(stdout);
-      if (nviol >= 5) break;
+      if (nviol >= 60) break;
     }
     // dump coverage and keys for the evidence file
     { std::ofstream f(outdir + "/w" + wid + ".keys", std::ios::binary); for (uint64_t k : st.keys) f.write((const char*)&k, 8); }
